@@ -11,7 +11,7 @@ pub fn def() -> PropDef {
     PropDef {
         info: PropInfo {
             id: "C17",
-            rule: "slots: every 8-byte slot value is decoded by ebpf::get_insn / to_insn_vec and re-encoded by Insn::to_array / to_vec and compared with an independent encoder/decoder (exhaustive per field: 256 opcodes x 256 register bytes, all 65536 offsets, boundary + random immediates in quick, all 2^32 immediates in thorough; random full slots at random indices of random-length programs via proptest). builder: every insn_builder constructor x parameters x field values compared with the reference encoding of the expected opcode, with Insn::to_vec, and with assemble() of the matching text when unused fields are zero. Non-trivial = slot with a non-zero register byte, offset or immediate (enumerations are distinct by construction; random cases distinct by hash).",
+            rule: "slots: every 8-byte slot value is decoded by ebpf::get_insn / to_insn_vec and re-encoded by Insn::to_array / to_vec and compared with an independent encoder/decoder (exhaustive per field: 256 opcodes x 256 register bytes, all 65536 offsets, boundary + random immediates in quick, all 2^32 immediates in thorough; all 256 x 256 ordered pairs of opcodes in adjacent slots with non-zero fields; random full slots at random indices of random-length programs via proptest; for every program the vector decoder ebpf::to_insn_vec must give, at every index, the independent decoding of that slot and re-encode to the program). builder: every insn_builder constructor x parameters x field values compared with the reference encoding of the expected opcode, with Insn::to_vec, and with assemble() of the matching text when unused fields are zero. Non-trivial = slot with a non-zero register byte, offset or immediate (enumerations are distinct by construction; random cases distinct by hash).",
             assumptions: &[
                 "reference encoder/decoder in harness/vrun/src/isa.rs is written independently (to_le_bytes) and is itself correct",
                 "builder constructors that do not denote an instruction (load() with a size other than double word, jump_conditional(Abs, Reg)) are outside the property",
@@ -46,6 +46,37 @@ fn check_slot_in_prog(prog: &[u8], idx: usize) -> Verdict {
     let v = got.to_vec();
     if v[..] != slot[..] {
         return Verdict::fail("to_vec-mismatch", format!("slot {} re-encoded by to_vec as {}", isa::hex(slot), isa::hex(&v)));
+    }
+    check_whole_prog(prog)
+}
+
+/// The vector decoder: one entry per slot, each equal to the independent decoding of that slot
+/// whatever its neighbours are; re-encoding the entries gives the program back.
+fn check_whole_prog(prog: &[u8]) -> Verdict {
+    let p2 = prog.to_vec();
+    let all = match catch(move || rbpf::ebpf::to_insn_vec(&p2)) {
+        Ok(g) => g,
+        Err(m) => return Verdict::fail(format!("to_insn_vec:{}", panic_signature(&m)), format!("ebpf::to_insn_vec panicked on {}: {m}", isa::hex(prog))),
+    };
+    if all.len() != prog.len() / 8 {
+        return Verdict::fail("to_insn_vec:length", format!("ebpf::to_insn_vec returned {} entries for {} slots: {}", all.len(), prog.len() / 8, isa::hex(prog)));
+    }
+    let mut back_a = Vec::with_capacity(prog.len());
+    let mut back_v = Vec::with_capacity(prog.len());
+    for (k, got) in all.iter().enumerate() {
+        let slot = &prog[k * 8..k * 8 + 8];
+        let want = ref_decode(slot);
+        if (got.opc, got.dst, got.src, got.off, got.imm) != (want.opc, want.dst, want.src, want.off, want.imm) {
+            return Verdict::fail(
+                "to_insn_vec:decode-mismatch",
+                format!("program {}: to_insn_vec[{k}] -> {got:?}, reference decoding of slot {} -> {want:?}", isa::hex(prog), isa::hex(slot)),
+            );
+        }
+        back_a.extend_from_slice(&got.to_array());
+        back_v.extend_from_slice(&got.to_vec());
+    }
+    if back_a != prog || back_v != prog {
+        return Verdict::fail("to_insn_vec:reencode-mismatch", format!("program {} re-encoded as {} / {}", isa::hex(prog), isa::hex(&back_a), isa::hex(&back_v)));
     }
     Verdict::Pass
 }
@@ -487,6 +518,43 @@ fn run(ctx: &Ctx) {
                         }
                     }
                     if ctx.enumerate_case(v, "slot", || json!({"prog": isa::hex(&slot), "idx": 0})) {
+                        return;
+                    }
+                }
+            }
+        }
+        // all 256 x 256 ordered pairs of opcodes in adjacent slots (a decoder that treats the slot
+        // after some opcode specially - wide loads - must still report every field of it), other
+        // fields non-zero, alone and between two other slots
+        for a in 0u32..256 {
+            if a as u64 % n != w {
+                continue;
+            }
+            for b in 0u32..256 {
+                let s1 = ref_encode(a as u8, (b & 15) as u8 ^ 5, (a & 15) as u8 ^ 9, -2 - b as i16, 0x1234_5678 ^ (b as i32) << 20);
+                let s2 = ref_encode(b as u8, 0x3 ^ (a & 15) as u8, 0xc ^ (b & 15) as u8, 0x7ffe - a as i16, i32::MIN + 0x1122 + a as i32);
+                let filler = ref_encode(0xb7, 1, 2, 3, 4);
+                for lead in [0usize, 1] {
+                    let mut prog = Vec::with_capacity(32);
+                    for _ in 0..lead {
+                        prog.extend_from_slice(&filler);
+                    }
+                    prog.extend_from_slice(&s1);
+                    prog.extend_from_slice(&s2);
+                    if lead == 1 {
+                        prog.extend_from_slice(&filler);
+                    }
+                    let mut v = check_slot_in_prog(&prog, lead);
+                    if matches!(v, Verdict::Pass) {
+                        v = check_slot_in_prog(&prog, lead + 1);
+                    }
+                    {
+                        let mut st = ctx.stats();
+                        st.eval();
+                        st.class("enum:opcode-pair");
+                        st.distinct_by_construction += 1;
+                    }
+                    if ctx.enumerate_case(v, "slot", || json!({"prog": isa::hex(&prog), "idx": lead + 1})) {
                         return;
                     }
                 }
